@@ -1865,6 +1865,15 @@ func explorePathsX(fn *ssa.Function, start ssa.Instruction, target ssa.Instructi
 					if isTarget(in) {
 						if onHit != nil {
 							onHit(func(v ssa.Value) ssa.Value {
+								// a comparison the path has decided answers with its verdict
+								if bo, isBo := v.(*ssa.BinOp); isBo {
+									if k := key(bo); k != "" {
+										if r, has := ps.decided[k]; has && r != U {
+											return ssa.NewConst(constant.MakeBool(r == T), types.Typ[types.Bool])
+										}
+									}
+									return v
+								}
 								for i := 0; i < 32; i++ {
 									ph, ok := v.(*ssa.Phi)
 									if !ok {
